@@ -1,5 +1,6 @@
 //! Property monitors and their registry.
 
+pub mod c01;
 pub mod c02;
 pub mod c03;
 pub mod c04;
@@ -19,6 +20,7 @@ pub mod c14;
 pub mod c15;
 pub mod c16;
 pub mod c17;
+pub mod c18;
 pub mod c19;
 pub mod treemodel;
 
@@ -35,206 +37,230 @@ fn build_registry() -> Vec<PropDef> {
     PropDef {
         id: "C12",
         level: "exploration",
-        cases_quick: 6_000,
-        cases_thorough: 1_500_000,
+        cases_quick: 100_000,
+        cases_thorough: 6_000_000,
         run_case: c12::run_case,
         rule: "one case = one random operation sequence (5..60 ops) on Tree<u32,K>, K in {2,3}, arguments drawn from {live index, stale index, never-used index} x {free, occupied label}; checked after every op against an executable reference model, an invariant walker and (after Err) full snapshot equality. Non-trivial = the sequence contained an Err result or an insertion that re-used a previously freed index; distinct = hash of K + the whole op/argument sequence.",
         assumptions: &["calls whose documented behaviour is a panic (label >= K, merge_child_with_parent on a node with != 1 children, remove_child on a missing child) are not generated", "slab's index allocation policy is not modelled: new indices are taken from the real return value and only required to be fresh"],
-        watchdog_quick: 240,
-        watchdog_thorough: 1500,
+        watchdog_quick: 600,
+        watchdog_thorough: 5400,
         exhaustive_note: None,
     },
     PropDef {
         id: "C13",
         level: "exploration",
-        cases_quick: 4_000,
-        cases_thorough: 600_000,
+        cases_quick: 60_000,
+        cases_thorough: 5_000_000,
         run_case: c13::run_case,
         rule: "one case = one random tree shape (K in {2,3}, 1..15 nodes, optional interleaved removals => non-contiguous / re-used arena indices, or a binary AffTree for PolyhedraIter) with EVERY node as traversal start, DfsPre/Bfs/DfsEdge each with and without random skip_subtree masks (incl. immediately repeated skips), size_hint checked after every next/skip, plus all metrics and index-order iterators. Non-trivial = K=3, or a start node other than the root, or at least one skip; distinct = hash of the shape (indices + child arrays) and skip mask.",
         assumptions: &["skip_subtree is only called after at least one item has been returned (the property speaks of 'the last returned item')", "depth() uses the convention pinned by the suite's test_depth (root = 0)"],
-        watchdog_quick: 240,
-        watchdog_thorough: 1500,
+        watchdog_quick: 600,
+        watchdog_thorough: 5400,
         exhaustive_note: Some("every node of every generated tree is used as start node (complete per tree)"),
     },
     PropDef {
         id: "C16",
         level: "exploration",
-        cases_quick: 20_000,
-        cases_thorough: 2_000_000,
+        cases_quick: 100_000,
+        cases_thorough: 5_000_000,
         run_case: c16::run_case,
         rule: "one case = random affine functions f: R^n->R^m, g: R^k->R^n, f2 (dims 1..5; regimes int / dyadic / short-float / full-float) and inputs; checked: apply, compose (coefficients and the identity compose(f,g)(x)=f(g(x)) in exact rationals), stack, + - * / % in six ownership forms each (bit-equal to the IEEE operator applied coefficient-wise, point-wise for + and -), negation in four forms, apply_transpose, row/row_iter/remove_rows/from_row_iter, view/owned/polytope conversions, remove_zero_rows/columns, convert_to under all four PolyRepr (sign condition iff membership, incl. boundary points) and all 13 named constructors against their doc sentence. Non-trivial = n >= 2 and m >= 2; distinct = hash of regime and all coefficients.",
         assumptions: &["coefficients are normal floats (from_mats debug-asserts this); divisors for / and % are non-zero", "remove_zero_columns is only called with at least one non-zero column"],
-        watchdog_quick: 240,
-        watchdog_thorough: 1500,
+        watchdog_quick: 600,
+        watchdog_thorough: 5400,
         exhaustive_note: None,
     },
     PropDef {
         id: "C14",
         level: "exploration",
-        cases_quick: 6_000,
-        cases_thorough: 600_000,
+        cases_quick: 20_000,
+        cases_thorough: 1_200_000,
         run_case: c14::run_case,
         rule: "one case = random polytopes P, P2 in R^n (n in 1..5, int/dyadic rows, asymmetric biases, occasional zero rows and empty sets), translation vector, affine map R^k->R^n, unimodular integer matrix with exact inverse, signed permutation and 3-4-5 rotation; every operation and constructor (intersection, intersection_n incl. empty list, translate, apply_pre, apply_post, rotate, hypercube, hyperrectangle, axis_bounds with +-inf, unbounded, empty, cross_polytope, from_normal, simplex, distance) is checked on ~100 lattice / half-lattice / exactly-on-boundary points: exact membership of the pre-image vs exact membership in the result rows vs the library's contains(). Non-trivial = the translation is non-zero on a polytope with non-zero bias or the hyperrectangle is asymmetric about the origin (so sign/transposition slips cannot cancel); distinct = hash of P and P2.",
         assumptions: &["exact regime: coefficients are small integers / dyadics so that slack is 0 or far above contains()' 1e-8 tolerance", "distance() is compared only on non-zero rows and on all-space rows (0 <= positive)"],
-        watchdog_quick: 240,
-        watchdog_thorough: 1500,
+        watchdog_quick: 600,
+        watchdog_thorough: 5400,
         exhaustive_note: None,
     },
     PropDef {
         id: "C15",
         level: "exploration",
-        cases_quick: 3_000,
-        cases_thorough: 300_000,
+        cases_quick: 25_000,
+        cases_thorough: 2_000_000,
         run_case: c15::run_case,
         rule: "one case = one constraint system in R^n (n in 1..4, up to 12 rows) assembled from random base rows plus exact duplicates, positively scaled twins, negatively scaled twins (equality pairs), parallel rows with looser/tighter bias, zero rows with positive/zero/negative bias and contradictions; remove_tautologies, remove_duplicate_rows, remove_zero_rows, normalize, remove_rows (arbitrary index sets and oracle-proved redundant sets) and remove_redundant_row_constraints are each checked for: result is an order-preserving subsequence of the original rows (or the canonical empty/all-space form where the property allows it), exact two-way set inclusion with the input (certified simplex), and for the redundancy remover that no surviving row is implied by the other survivors by a margin 1e-6(1+|b|). Non-trivial = an operation dropped at least one row or the system contains a near-miss (negatively scaled twin, parallel row with different bias); distinct = hash of all coefficients.",
         assumptions: &["rows are exact multiples or clearly different (no rows that differ by a few ulps, which remove_duplicate_rows treats as equal by design)", "normalize is compared up to f64 rounding of the scaling and on points at least 1e-9 away from the boundary"],
-        watchdog_quick: 300,
-        watchdog_thorough: 1800,
+        watchdog_quick: 600,
+        watchdog_thorough: 5400,
         exhaustive_note: None,
     },
     PropDef {
         id: "C17",
         level: "exploration",
-        cases_quick: 2_500,
-        cases_thorough: 250_000,
+        cases_quick: 30_000,
+        cases_thorough: 2_000_000,
         run_case: c17::run_case,
         rule: "cases 0..511 enumerate the grid {ReLU, leaky ReLU x 5 alphas, hard tanh x 5 (min,max), hard shrink x 4 lambdas, hard sigmoid, threshold x 5 (theta,value), argmax, class characterisation x 4 classes, inf_norm x 6 bound combinations} x 4 dimensions x 4 rows, each evaluated on the full product lattice over {every breakpoint, +-1/2, +-1 beyond, 0} per component (all ties for argmax) when it has <= 4000 points (else 4000 samples) plus gaussian points; later cases draw random (kind, dim <= 6, row), from_poly with/without else-branch on random polytopes incl. exactly-on-boundary points, and from_slice+compose+remove_axes against the original tree evaluated on the embedded point. Both the library's evaluate() and an independent exact walk of the tree's raw nodes must equal the textbook definition (exact, 1e-12 for hard sigmoid). Non-trivial = at least one input on a breakpoint / tie / polytope boundary (slice cases always count); distinct = hash of (kind, parameters, dim, row) resp. of the polytope / tree and reference point.",
         assumptions: &["textbook definitions as in PyTorch: hardshrink(x)= x if |x|>lambda else 0; threshold(x)= x if x>theta else value; hardsigmoid = clamp(x/6+1/2,0,1); hardtanh = clamp; argmax = first maximal index"],
-        watchdog_quick: 300,
-        watchdog_thorough: 1800,
+        watchdog_quick: 600,
+        watchdog_thorough: 5400,
         exhaustive_note: Some("parameter grid x dims 1..4 x rows x product lattice is enumerated completely by cases 0..511 (evidence counter full_product_lattices)"),
     },
     PropDef {
         id: "C19",
         level: "exploration",
-        cases_quick: 6_000,
-        cases_thorough: 600_000,
+        cases_quick: 80_000,
+        cases_thorough: 6_000_000,
         run_case: c19::run_case,
         rule: "70% of the cases: a random matrix/bias (1..8 rows x 1..30 columns; -0.0, 1e+-12 magnitudes, exact ties in |coefficient|, all-zero rows, values that round to zero) rendered as function or polytope under a random FormatOptions (sort threshold in {0,1,5,n,n+1}, simplify_zero, simplify_tautologies, normalize, skip_axes / skip_rows ranges: empty, interior, prefix, suffix, everything) at precision 0..6; the output is parsed back and every shown (coefficient, $index) pair, bias, inequality direction and truth symbol compared with the stored values (|shown - stored*scale| <= half a unit of the last printed digit, sign right unless printed as zero), indices unique, displayed rows an order-preserving subsequence of the stored rows, and every omission of terms/rows accompanied by an ellipsis. 30%: a random binary AffTree (scrambled arena; some with 21..25 input dimensions or 6..7 output rows so that the default skipping is active; zero predicates) rendered with Display and Dot: exactly one block/statement per arena node whose text parses back to that node's own function or predicate, exactly one edge statement per edge with the real label, correct T/D flag and children list. Non-trivial = sorting or an ellipsis was active, or the tree has non-contiguous indices / large dimensions; distinct = hash of object+options resp. tree structure.",
         assumptions: &["coefficients are normal floats or (-)0.0; a normalised row may be scaled by 1/max|a|, 1/||a||_2 or 1/||a||_1 (any standard normalisation is accepted as faithful)", "DOT shape/style attributes are not part of the property and are not checked"],
-        watchdog_quick: 300,
-        watchdog_thorough: 1800,
+        watchdog_quick: 600,
+        watchdog_thorough: 5400,
         exhaustive_note: None,
     },
     PropDef {
         id: "C02",
         level: "exploration",
-        cases_quick: 3_000,
-        cases_thorough: 400_000,
+        cases_quick: 30_000,
+        cases_thorough: 2_500_000,
         run_case: c02::run_case,
         rule: "one case = a pair of random trees f: R^n->R^m, g: R^m->R^p (K=2 in 70%, K=4 in 30% with 1- or 2-row decisions; depth 0..3 incl. terminal-rooted operands; total or with 25% missing children; scrambled arenas; f optionally pre-pruned so that its nodes carry cached states; int/dyadic/short-float/full-float regimes), h = f.clone().compose::<false,false>(&g) and h2 = f.clone().apply_func(a). Checked: complete graft audit (|h| = |f|+|T_f|(|g|-1), every f index kept, decisions of f untouched, every grafted node holds exactly (A_g M_t, b_g - A_g c_t) resp. (M_g M_t, M_g c_t + c_g) recomputed in exact rationals, labels preserved, missing children stay missing), g bit-identical before/after, and on ~150 probe inputs (lattices, max-slack points of every cell of f and h, points exactly on hyperplanes, gaussian) the exact walk of h equals g(f(x)) with undefinedness, and the library's evaluate() equals the exact walk. Non-trivial = both operands have a decision or one of them is partial; distinct = structural hash of (f, g).",
         assumptions: &["float regimes: inputs whose route passes within relative 1e-9 (1e-7 for g at f(x)) of a hyperplane are skipped, values compared at 1e-9; exact regimes (int, dyadic): everything bit-exact including boundary inputs"],
-        watchdog_quick: 300,
-        watchdog_thorough: 2400,
+        watchdog_quick: 600,
+        watchdog_thorough: 5400,
         exhaustive_note: Some("the graft audit visits every node of every result tree (complete per tree)"),
     },
     PropDef {
         id: "C03",
         level: "exploration",
-        cases_quick: 2_000,
-        cases_thorough: 200_000,
+        cases_quick: 30_000,
+        cases_thorough: 2_500_000,
         run_case: c03::run_case,
         rule: "one case = (50%) a binary tree with a history (random spec tree: depth <= 3, 0/30% missing children, planted contradicting predicates, zero predicates, scrambled arena; then up to 3 random steps of unpruned composition with schema or random (partial) trees, infeasible_elimination, apply_func, so that nodes carry cached Feasible/Witness/Infeasible states) pruned by infeasible_elimination; (30%) f.compose::<true>(g) against f.compose::<false>(g) for the same f (with history) and a random total/partial g or schema tree; (20%) an arithmetic operator on a pair with partial operands (C07 comparator). Oracle: every index removed in place is classified (subtree top must have exact uniform slack < 1e-4, forwarded decisions must have had both children and their other subtree must be such a region; a decision turning into a terminal is a violation; survivors keep index and function; after-paths are subsequences of before-paths), the max-slack interior point of every thick cell (terminal region or undefined region) of both trees and every probe input that ends in a thick cell of the reference tree must be treated identically (exact values, definedness). Non-trivial = pruning removed at least one node; distinct = structural hash of the inputs.",
         assumptions: &["band |t*| < 1e-4 of the exact uniform slack is 'thin': either verdict of the LP is accepted and the case is counted as skipped", "histories that panic or yield a malformed tree before the monitored step are C04's subject and skipped here"],
-        watchdog_quick: 400,
-        watchdog_thorough: 3000,
+        watchdog_quick: 600,
+        watchdog_thorough: 5400,
         exhaustive_note: Some("the removed-node audit and the thick-cell enumeration are complete for every tree at hand"),
     },
     PropDef {
         id: "C07",
         level: "exploration",
-        cases_quick: 2_500,
-        cases_thorough: 250_000,
+        cases_quick: 50_000,
+        cases_thorough: 4_000_000,
         run_case: c07::run_case,
         rule: "one case = (65%) a pair of binary trees a, b over the same dimensions (depth <= 3, terminal-rooted allowed, 30% of operands partial, scrambled arena, divisor trees with non-zero power-of-two coefficients) and one operator of + - * / evaluated in the four ownership forms &a.&b, a.&b, a.b, &a.b; per probe input the terminals reached in a and b by the exact walk determine the expected terminal (same IEEE operator coefficient-wise, bit-equal) and definedness (S5: joint cell of the two end cells must be thick); (35%) tree-affine forms a.f, a.&f, f.a, &f.a for + - * / and -a: structure unchanged, decisions untouched, terminals bit-equal to the operator applied in the right operand order, point-wise meaning for + - neg. Non-trivial = both operands (resp. the tree) have a decision; distinct = hash of operator and operands.",
         assumptions: &["divisors have non-zero coefficients (otherwise from_mats' debug assertion on non-normal floats fires, which is documented behaviour)"],
-        watchdog_quick: 400,
-        watchdog_thorough: 3000,
+        watchdog_quick: 600,
+        watchdog_thorough: 5400,
         exhaustive_note: None,
     },
     PropDef {
         id: "C08",
         level: "exploration",
-        cases_quick: 4_000,
-        cases_thorough: 500_000,
+        cases_quick: 60_000,
+        cases_thorough: 5_000_000,
         run_case: c08::run_case,
         rule: "one case = a random binary tree (depth <= 5, optional missing children, scrambled arena; int / dyadic / short-float) into which equal-terminal subtrees (=> cascading merges over several levels), equal siblings under the root and near-miss sibling pairs (differing in one bias entry, in one coefficient by 1 ulp, in one bias by 1 ulp, or only in 0.0 vs -0.0) were planted; reduce() is checked against an independent recursive reference reduce (result must be isomorphic), exact evaluation before/after on ~150 probe inputs with no tolerance and no exemption, len non-increasing, surviving nodes keep index and function, second reduce() is a structural no-op, no non-root decision with two identical terminal children remains. Non-trivial = at least one merge happened; distinct = structural hash.",
         assumptions: &["'same affine function' is f64 equality of all coefficients (0.0 == -0.0), as in the library"],
-        watchdog_quick: 300,
-        watchdog_thorough: 2400,
+        watchdog_quick: 600,
+        watchdog_thorough: 5400,
         exhaustive_note: None,
     },
     PropDef {
         id: "C09",
         level: "exploration",
-        cases_quick: 2_000,
-        cases_thorough: 200_000,
+        cases_quick: 30_000,
+        cases_thorough: 2_000_000,
         run_case: c09::run_case,
         rule: "one case = a random binary tree (depth <= 5, 0/25% missing children, planted contradictions, occasional zero predicates, scrambled arena with non-contiguous indices). Checked: the complete polyhedra() stream (pre-order, depth, sibling counter, reported halfspaces equal the exact path rows sign included), the same stream under random and repeated skip_subtree calls (every reported path condition must still be the node's own), find_terminal's node and label sequence against the exact walk and the parent links, every probe input (lattices, cell interiors, points exactly on hyperplanes, gaussian) satisfies the reported closed conditions of every node on its route, the exact max-slack interior point of every node's reported region is routed through that node, pairwise exact interior-disjointness of all terminal regions (<= 24 terminals), and for total trees that every half-integer lattice point reaches a terminal whose reported region contains it. Non-trivial = depth >= 3 or an input lay exactly on a hyperplane of its route; distinct = structural hash.",
         assumptions: &["closed-region convention: A x <= b goes to label 1, the reported polytope of label 0 is the closed negation; inputs on a hyperplane lie in both reported polytopes and are routed to label 1", "float regime inputs within relative 1e-9 of a hyperplane on their route are skipped"],
-        watchdog_quick: 400,
-        watchdog_thorough: 3000,
+        watchdog_quick: 600,
+        watchdog_thorough: 5400,
         exhaustive_note: Some("pairwise disjointness is complete over all terminal pairs of each tree with <= 24 terminals"),
     },
     PropDef {
         id: "C10",
         level: "exploration",
-        cases_quick: 4_000,
-        cases_thorough: 400_000,
+        cases_quick: 60_000,
+        cases_thorough: 5_000_000,
         run_case: c10::run_case,
         rule: "one case = (60%) a generated constraint system in R^n, n in 1..4, of one of the classes box+cuts, cone, slab (lineality space), free halfspaces, empty by a margin, empty by 1e-9 (thin band), lower-dimensional, with zero rows (bias +,0,-), duplicates/scaled/parallel rows, all-space, random; status(), is_feasible() and solve_linprog for three objectives (random integer, +- a constraint normal, +- a coordinate) are refereed by the exact simplex: Infeasible only if uniform slack < 1e-4, feasible answers only if slack > -1e-4, witness inside within 1e-6 relative, Optimal value within 1e-6 relative of the exact minimum, Unbounded iff non-empty and unbounded below; (20%) Chebyshev programs of polytopes with rational row norms (axis-aligned and 3-4-5 rows): the constructed program equals {a_i x + |a_i| r <= b_i, r >= 0, min -r} row for row, radius within 1e-6 of the exact optimum, ball inscribed; (20%) online: every LP solved by infeasible_elimination and a pruned composition on a random tree with history, logged through the hook (query + real answer) and refereed by the same oracle. Non-trivial = the instance belongs to a special class (not box+cuts / random), a Chebyshev case, or an online pipeline with at least one LP; distinct = hash of the instance.",
         assumptions: &["thin band |t*| < 1e-4: either verdict allowed (skipped)", "HiGHS backend is not built in this sandbox; only the default minilp backend is observed"],
-        watchdog_quick: 400,
-        watchdog_thorough: 3000,
+        watchdog_quick: 600,
+        watchdog_thorough: 5400,
         exhaustive_note: None,
     },
     PropDef {
         id: "C06",
         level: "exploration",
-        cases_quick: 1_500,
-        cases_thorough: 150_000,
+        cases_quick: 25_000,
+        cases_thorough: 1_500_000,
         run_case: c06::run_case,
         rule: "one case = (65%) a total binary tree with infeasible paths: a random total tree with contradicting predicates planted at every depth, or an affine root, followed by 1..4 steps of unpruned composition with schema trees (ReLU, leaky ReLU, hard tanh, hard shrink), apply_func and earlier eliminations (so that states are cached); after infeasible_elimination every surviving non-root node's path region is classified exactly (empty by a margin => violation), no non-root decision with a thick region may be left with a single branch, a second run on a clone must leave indices, functions and child arrays identical and find zero infeasible LPs, and the function is preserved on thick cells; (35%) a random net (1..3 inputs, up to 7 ReLU / leaky ReLU / hard tanh neurons in up to 3 layers) distilled with afftree_from_layers: all activation patterns are enumerated with the reference network, each closed cell classified exactly, and num_terminals() must lie between the number of full-dimensional cells and the number of cells not empty by a margin. Non-trivial = the first run removed a node resp. the net has an empty activation pattern; distinct = structural hash / hash of the net.",
         assumptions: &["thin band |t*| < 1e-4 is never asserted"],
-        watchdog_quick: 400,
-        watchdog_thorough: 3000,
+        watchdog_quick: 600,
+        watchdog_thorough: 5400,
         exhaustive_note: Some("all activation patterns of each generated net are enumerated; every surviving node of each tree is classified"),
     },
     PropDef {
         id: "C04",
         level: "exploration",
-        cases_quick: 1_500,
-        cases_thorough: 150_000,
+        cases_quick: 12_000,
+        cases_thorough: 800_000,
         run_case: c04::run_case,
         rule: "one case = one operation history on AffTree<2>: constructor drawn from {new, from_aff, from_poly with / without else-branch (sometimes infeasible), every schema generator, manually built total/partial tree} followed by 1..25 operations drawn (with per-case swarm weights for pruning and partial operands) from apply_func, compose::<false> / compose::<true> with schema trees (ReLU, leaky, hard tanh, hard shrink, threshold, hard sigmoid, argmax, class characterisation, inf-norm) or random total/partial trees, infeasible_elimination, reduce, tree +/- tree in the four ownership forms, tree +/- affine in the four forms, negation; arguments made dimension-compatible by a small type model (biased to output dimensions >= 2). After EVERY step: tree-level and AffTree-level well-formedness walker with the predicted output dimension, and (exact-arithmetic histories) the result's exact walk against the exact model 'op applied to the previous snapshot' on probe inputs that end in a thick cell of the result. A panic is caught per step; a process abort (take_mut) is attributed through the write-ahead marker. At the end a usability battery (evaluate, Display, Debug, Dot, polyhedra_iter, depth_stats, a further elimination and reduce). Non-trivial = at least one pruning operation and at least two structure-changing operations; distinct = hash of constructor kind + op-kind sequence.",
         assumptions: &["operations whose documented outcome is a panic are never generated (dimension-incompatible arguments, argmax on width < 2)", "histories containing hard sigmoid (1/6 is not a dyadic) are checked for well-formedness and panics only"],
-        watchdog_quick: 500,
-        watchdog_thorough: 3000,
+        watchdog_quick: 600,
+        watchdog_thorough: 5400,
         exhaustive_note: None,
     },
     PropDef {
         id: "C05",
         level: "exploration",
-        cases_quick: 1_500,
-        cases_thorough: 150_000,
+        cases_quick: 30_000,
+        cases_thorough: 2_500_000,
         run_case: c05::run_case,
         rule: "one case = (75%) an operation history as in C04 (exact regimes) with pruning weight 0.8, into which repeated infeasible_elimination runs, apply_func_at_node on cached terminals and a final remove_axes (+ elimination) are inserted; after EVERY step every node's cache is refereed: each point of a FeasibleWitness list must satisfy every exact path row within 1e-8(1+1e-6) + 4 ulp * sum|a_i p_i|, lists must be non-empty and of the tree's input dimension, and no node marked Infeasible may have a path region with exact uniform slack >= 1e-4; (25%) a direct call mirror_points(P, starts, n) on random polytopes (1..4 dims, 1..6 rows, row norms 1e-6..1e3, zero rows, starts near or 1e3 away, 1..20 iterations): every returned column must satisfy every row within 1e-9 relative. Non-trivial = at least one witness was kept unchanged at a node whose parent, children or function changed in that step (resp. mirror_points returned points after at least one move); distinct = hash of the history / instance.",
         assumptions: &["a Feasible mark on an empty region is not unsound (it can only reduce pruning) and is not checked", "apply_func_at_node is applied to terminals only (on decisions it is documented as caller's responsibility)"],
-        watchdog_quick: 500,
-        watchdog_thorough: 3000,
+        watchdog_quick: 600,
+        watchdog_thorough: 5400,
         exhaustive_note: Some("every cached state of every node is checked after every step of each history"),
     },
     PropDef {
         id: "C11",
         level: "fault_enumeration",
-        cases_quick: 160,
-        cases_thorough: 12_000,
+        cases_quick: 2_000,
+        cases_thorough: 120_000,
         run_case: c11::run_case,
         rule: "one case = a binary tree with history (<= 120 nodes) and one of {infeasible_elimination, f.compose::<true>(g) with a random total/partial g, a + b with a random total/partial b}. The fault-free run is logged through the LP hook (N calls); then EVERY single-fault plan (call index i < N) x {Error, Unbounded, optimal point pushed 1e-6 outside the tightest row, optimal point moved by 1e3} is executed, then 6 random plans with 2..N faults and the 4 all-calls-faulty plans. Under each plan: the operation must not panic, the result must be well-formed, every cached witness must lie in its exact path polytope and no Infeasible mark may sit on a thick region (C05 oracle), removed nodes must be exactly-classified non-thick regions (C03 audit), and the function must equal the reference (tree before / unpruned composition / exact a(x)+b(x)) on the interior point of every thick cell and on probe inputs ending in thick cells. 'Fewer terminals than the fault-free run' is recorded, not asserted. Non-trivial = at least one plan changed the answer of a live LP call (seen in the hook log); distinct = hash of the case.",
         assumptions: &["faults model the failure modes the code anticipates for its LP backends (error status, unbounded status, point outside the polytope); that a real backend produces exactly these is outside what can be observed here", "a Feasible mark on an empty region is not counted as unsound"],
         watchdog_quick: 600,
-        watchdog_thorough: 3600,
+        watchdog_thorough: 5400,
         exhaustive_note: Some("all single-fault positions x 4 fault kinds are enumerated for every case (evidence: fault_plans_executed vs lp_calls_in_fault_free_runs)"),
+    },
+    PropDef {
+        id: "C01",
+        level: "exploration",
+        cases_quick: 10_000,
+        cases_thorough: 600_000,
+        run_case: c01::run_case,
+        rule: "one case = a random layer list (1..3 inputs, 1..3 linear layers of width 1..3, per neuron one of {none, ReLU, leaky ReLU with alpha in {0,1/2,1/4,2,-1}, hard tanh, hard sigmoid}, optional final argmax or class characterisation; <= 7 activations; int / dyadic / short-float / full-float weights) and a precondition from {none, box, bounded or unbounded polytope, polytope with an affine terminal map, empty, lower-dimensional} built with from_poly(.., None), distilled with afftree_from_layers. On ~150..400 inputs (lattices, the exact max-slack point of every cell of the tree and of every full-dimensional activation cell of the reference network, points exactly on tree hyperplanes and on precondition faces, gaussian) the exact walk of the tree must equal the textbook forward pass in exact rationals (bit-exact in the exact regimes incl. breakpoints and argmax ties; 1e-9 relative and >= 1e-6 margin from breakpoints otherwise), be undefined exactly outside the closed precondition, and the library's evaluate() must agree with the exact walk. Non-trivial = the net has an activation and the tree at least 3 terminals; distinct = hash of layers + precondition.",
+        assumptions: &["hard sigmoid's slope 1/6 is not a dyadic: nets containing it are compared at 1e-9 with margins", "inputs of a precondition that is itself lower-dimensional / thinner than 1e-4 may be undefined (counted as undefined_inside_a_thin_precondition, not asserted)"],
+        watchdog_quick: 600,
+        watchdog_thorough: 5400,
+        exhaustive_note: None,
+    },
+    PropDef {
+        id: "C18",
+        level: "exploration",
+        cases_quick: 15_000,
+        cases_thorough: 1_000_000,
+        run_case: c18::run_case,
+        rule: "one case = (75%) a random sequence of 1..9 Architecture builder calls (linear with right / wrong input width, partial_relu / leaky_relu / hard_tanh / hard_sigmoid with valid / out-of-range index, whole-layer activations, argmax, further calls after argmax) checked against a shape model: accepted iff dimension-compatible, current_shape == output dimension after every call, recorded per-operator shapes, then the accepted architecture is distilled under catch_unwind and compared with the exact reference network on ~100 lattice inputs, and for EVERY split point k the trees of extract_range(0,k) and extract_range(k,n) (shapes checked) are composed and compared with the tree of the whole; (25%) a layer list of 1..30 linear layers (width 1..6, short- or full-mantissa weights) with relu / hard_tanh / hard_sigmoid markers written with ndarray-npy's NpzWriter in the shipped dialect (NNN.linear.weights.npy, NNN.linear.bias.npy, NNN.relu.npy, optional 000.layers.npy, archive order shuffled) and read back with read_layers: same kinds in index order, bit-equal weights, one activation entry per neuron of the preceding linear layer. Non-trivial = the call sequence contains a rejected call or an argmax, or the file has >= 11 entries; distinct = hash of the call sequence / file description.",
+        assumptions: &["argmax needs at least two components (schema::argmax indexes component 1)", "npz entry names carry the .npy suffix and zero-padded three-digit indices as in the shipped files"],
+        watchdog_quick: 600,
+        watchdog_thorough: 5400,
+        exhaustive_note: Some("every split point of every accepted architecture is checked"),
     },
     ]
 }
